@@ -234,6 +234,19 @@ func (m *model) applyST(mu Mut) bool {
 		case "zerofit": // a zero-sized tensor, consistently declared
 			e.Shape[di] = 0
 			e.Off = [2]int64{e.Off[0], e.Off[0]}
+		case "hugefit", "hugefit40": // a one-dimensional tensor of enormous size, consistently declared: the shape
+			// describes exactly the bytes the offsets span, which end just below 2^63 (where offset+size wraps) or near 2^40
+			width := int64(2)
+			if e.DType == "F32" {
+				width = 4
+			}
+			limit := int64(1<<63 - 2)
+			if mu.Val == "hugefit40" {
+				limit = 1 << 40
+			}
+			size := (limit-e.Off[0])/width*width - width*(mu.Num%3)
+			e.Shape = []int64{size / width}
+			e.Off[1] = e.Off[0] + size
 		case "halffit": // half the rows, consistently declared
 			if e.Shape[di] < 2 {
 				return false
